@@ -301,13 +301,13 @@ func genVE(g *genCtx) {
 		}
 		m := map[string][]string{}
 		order := []string{}
-		for i := 0; i < r.intn(4); i++ {
+		for i, iN := 0, r.intn(4); i < iN; i++ {
 			k := fieldsA[r.intn(len(fieldsA))]
 			if _, ok := m[k]; ok {
 				continue
 			}
 			ms := []string{}
-			for j := 0; j < r.intn(3); j++ {
+			for j, jN := 0, r.intn(3); j < jN; j++ {
 				ms = append(ms, msgsA[r.intn(len(msgsA))])
 			}
 			m[k] = ms
@@ -344,7 +344,7 @@ func genVE(g *genCtx) {
 		}
 		used := map[string]bool{}
 		n.kids = []vkid{}
-		for i := 0; i < r.rangeIn(1, 3); i++ {
+		for i, iN := 0, r.rangeIn(1, 3); i < iN; i++ {
 			name := kidsA[r.intn(len(kidsA))]
 			if used[name] {
 				continue
@@ -359,7 +359,7 @@ func genVE(g *genCtx) {
 		g.newCase("kind=reads")
 		r := g.rng
 		g.op("tree %s", genNode(r, r.rangeIn(0, maxDepth)))
-		for i := 0; i < r.rangeIn(1, 6); i++ {
+		for i, iN := 0, r.rangeIn(1, 6); i < iN; i++ {
 			g.op("read %s", reads[r.intn(len(reads))])
 		}
 	}
